@@ -27,26 +27,68 @@ import (
 )
 
 // A sample is the pair [t, v] (JSON array of two integers; a TLA+ tuple <<t, v>>).
+// A histogram sample is [t, v, "h"] (native histogram) or [t, v, "fh"] (float histogram); v is
+// the histogram's count, which identifies it.
 type smp struct {
 	t int64
 	v float64
+	k string // "" / "f" float, "h", "fh"
 }
 
-func (s smp) T() int64                      { return s.t }
-func (s smp) F() float64                    { return s.v }
-func (s smp) H() *histogram.Histogram       { return nil }
-func (s smp) FH() *histogram.FloatHistogram { return nil }
-func (s smp) Type() chunkenc.ValueType      { return chunkenc.ValFloat }
-func (s smp) Copy() chunks.Sample           { return s }
+func (s smp) T() int64   { return s.t }
+func (s smp) F() float64 { return s.v }
+func (s smp) H() *histogram.Histogram {
+	if s.k != "h" {
+		return nil
+	}
+	return &histogram.Histogram{Count: uint64(s.v), ZeroCount: uint64(s.v), Sum: s.v, ZeroThreshold: 0.001}
+}
+func (s smp) FH() *histogram.FloatHistogram {
+	if s.k != "fh" {
+		return nil
+	}
+	return &histogram.FloatHistogram{Count: s.v, ZeroCount: s.v, Sum: s.v, ZeroThreshold: 0.001}
+}
+func (s smp) Type() chunkenc.ValueType {
+	switch s.k {
+	case "h":
+		return chunkenc.ValHistogram
+	case "fh":
+		return chunkenc.ValFloatHistogram
+	}
+	return chunkenc.ValFloat
+}
+func (s smp) Copy() chunks.Sample { return s }
 
 // nonInt marks an observed value that is not an integer (cannot come from an integer replica).
 const nonInt = -987654321
 
-func pair(t int64, v float64) []int64 {
+func pair(t int64, v float64) []any {
 	if v != math.Trunc(v) || math.IsNaN(v) || math.IsInf(v, 0) || math.Abs(v) > 1e15 {
-		return []int64{t, nonInt}
+		return []any{t, int64(nonInt)}
 	}
-	return []int64{t, int64(v)}
+	return []any{t, int64(v)}
+}
+
+// current reads the sample the iterator is positioned on with the accessor that belongs to the
+// value type the last Next/Seek returned.
+func current(it chunkenc.Iterator, typ chunkenc.ValueType) []any {
+	switch typ {
+	case chunkenc.ValHistogram:
+		t, h := it.AtHistogram(nil)
+		if h == nil {
+			return []any{t, int64(nonInt), "h"}
+		}
+		return append(pair(t, float64(h.Count)), "h")
+	case chunkenc.ValFloatHistogram:
+		t, fh := it.AtFloatHistogram(nil)
+		if fh == nil {
+			return []any{t, int64(nonInt), "fh"}
+		}
+		return append(pair(t, fh.Count), "fh")
+	}
+	t, v := it.At()
+	return pair(t, v)
 }
 
 func readReps(v any) [][]smp {
@@ -55,19 +97,26 @@ func readReps(v any) [][]smp {
 		rep := []smp{}
 		for _, s := range vt.List(r) {
 			p := vt.List(s)
-			rep = append(rep, smp{t: vt.Int64(p[0]), v: float64(vt.Int64(p[1]))})
+			x := smp{t: vt.Int64(p[0]), v: float64(vt.Int64(p[1]))}
+			if len(p) > 2 {
+				x.k = vt.Str(p[2])
+			}
+			rep = append(rep, x)
 		}
 		out = append(out, rep)
 	}
 	return out
 }
 
-func repsJSON(reps [][]smp) [][][]int64 {
-	out := make([][][]int64, len(reps))
+func repsJSON(reps [][]smp) [][][]any {
+	out := make([][][]any, len(reps))
 	for i, r := range reps {
-		out[i] = make([][]int64, len(r))
+		out[i] = make([][]any, len(r))
 		for j, s := range r {
-			out[i][j] = []int64{s.t, int64(s.v)}
+			out[i][j] = []any{s.t, int64(s.v)}
+			if s.k == "h" || s.k == "fh" {
+				out[i][j] = append(out[i][j], s.k)
+			}
 		}
 	}
 	return out
@@ -117,8 +166,11 @@ func replicaSeries(reps [][]smp, src string) []storage.Series {
 
 // dedupIterator returns a fresh iterator over the penalty-deduplicated series, obtained the way
 // the querier obtains it: dedup.NewSeriesSet(set, f, penalty) -> Next -> At -> Iterator.
-func dedupIterator(reps [][]smp, src, f string) (chunkenc.Iterator, error) {
-	ss := dedup.NewSeriesSet(&listSet{s: replicaSeries(reps, src)}, f, dedup.AlgorithmPenalty)
+func dedupIterator(reps [][]smp, src, f, algo string) (chunkenc.Iterator, error) {
+	if algo != dedup.AlgorithmChain {
+		algo = dedup.AlgorithmPenalty
+	}
+	ss := dedup.NewSeriesSet(&listSet{s: replicaSeries(reps, src)}, f, algo)
 	if !ss.Next() {
 		return nil, fmt.Errorf("dedup series set is empty (err=%v)", ss.Err())
 	}
@@ -133,10 +185,13 @@ func dedupIterator(reps [][]smp, src, f string) (chunkenc.Iterator, error) {
 // drain reads the rest of the stream with Next. A well-formed merge cannot yield more samples
 // than the replicas hold; reading stops at `limit` (more than twice that), and the truncated
 // stream is judged like any other (it necessarily repeats a timestamp or invents a sample).
-func drain(it chunkenc.Iterator, out [][]int64, limit int) ([][]int64, error) {
-	for it.Next() != chunkenc.ValNone {
-		t, v := it.At()
-		out = append(out, pair(t, v))
+func drain(it chunkenc.Iterator, out [][]any, limit int) ([][]any, error) {
+	for {
+		typ := it.Next()
+		if typ == chunkenc.ValNone {
+			break
+		}
+		out = append(out, current(it, typ))
 		if len(out) > limit {
 			return out, nil
 		}
@@ -148,7 +203,7 @@ func drain(it chunkenc.Iterator, out [][]int64, limit int) ([][]int64, error) {
 // for every target, the stream of a reader on a fresh iterator whose first call is Seek(target).
 func observe(c vt.Case) vt.Event {
 	return guarded(func() vt.Event { return observeUnguarded(c) },
-		vt.Event{"next": [][]int64{}, "seeks": []any{}})
+		vt.Event{"next": [][]any{}, "seeks": []any{}, "logs": []any{}})
 }
 
 // guarded runs one observation under a watchdog: code under test that does not return within
@@ -177,23 +232,20 @@ func guarded(run func() vt.Event, empty vt.Event) vt.Event {
 
 func observeUnguarded(c vt.Case) (ev vt.Event) {
 	reps := readReps(c["reps"])
-	src, f := vt.Str(c["src"]), vt.Str(c["f"])
-	total := 0
-	for _, r := range reps {
-		total += len(r)
-	}
-	ev = vt.Event{"next": [][]int64{}, "seeks": []any{}, "err": ""}
+	src, f, algo := vt.Str(c["src"]), vt.Str(c["f"]), vt.Str(c["algo"])
+	total := totalSamples(reps)
+	ev = vt.Event{"next": [][]any{}, "seeks": []any{}, "logs": []any{}, "err": ""}
 	defer func() {
 		if r := recover(); r != nil {
 			ev["err"] = fmt.Sprintf("panic: %v at %s", r, panicSite())
 		}
 	}()
-	it, err := dedupIterator(reps, src, f)
+	it, err := dedupIterator(reps, src, f, algo)
 	if err != nil {
 		ev["err"] = err.Error()
 		return ev
 	}
-	next, err := drain(it, [][]int64{}, 2*total+8)
+	next, err := drain(it, [][]any{}, 2*total+8)
 	ev["next"] = next
 	if err != nil {
 		ev["err"] = err.Error()
@@ -201,15 +253,14 @@ func observeUnguarded(c vt.Case) (ev vt.Event) {
 	}
 	seeks := []any{}
 	for _, x := range vt.List(c["targets"]) {
-		it, err := dedupIterator(reps, src, f)
+		it, err := dedupIterator(reps, src, f, algo)
 		if err != nil {
 			ev["err"] = err.Error()
 			return ev
 		}
-		s := [][]int64{}
-		if it.Seek(vt.Int64(x)) != chunkenc.ValNone {
-			t, v := it.At()
-			s = append(s, pair(t, v))
+		s := [][]any{}
+		if typ := it.Seek(vt.Int64(x)); typ != chunkenc.ValNone {
+			s = append(s, current(it, typ))
 			if s, err = drain(it, s, 2*total+8); err != nil {
 				ev["err"] = err.Error()
 			}
@@ -219,7 +270,90 @@ func observeUnguarded(c vt.Case) (ev vt.Event) {
 		seeks = append(seeks, map[string]any{"x": vt.Int64(x), "s": s})
 		ev["seeks"] = seeks
 	}
+	// readers that mix Next and Seek: every call and what it returned; a reader stops at the
+	// first call that finds no sample (the iterator contract says nothing about calls after that)
+	logs := []any{}
+	for _, sc := range vt.List(c["scripts"]) {
+		it, err := dedupIterator(reps, src, f, algo)
+		if err != nil {
+			ev["err"] = err.Error()
+			return ev
+		}
+		m := vt.Map(sc)
+		log := []any{}
+		call := func(op string, x int64) bool {
+			var typ chunkenc.ValueType
+			if op == "seek" {
+				typ = it.Seek(x)
+			} else {
+				typ = it.Next()
+			}
+			e := map[string]any{"op": op, "x": x, "ok": typ != chunkenc.ValNone, "s": []any{}}
+			if typ != chunkenc.ValNone {
+				e["s"] = current(it, typ)
+			}
+			log = append(log, e)
+			return typ != chunkenc.ValNone
+		}
+		alive := true
+		for _, o := range vt.List(m["ops"]) {
+			om := vt.Map(o)
+			if alive = call(vt.Str(om["op"]), vt.Int64(om["x"])); !alive {
+				break
+			}
+		}
+		for alive && vt.Bool(m["drain"]) && len(log) <= 2*total+40 {
+			alive = call("next", 0)
+		}
+		if err := it.Err(); err != nil {
+			ev["err"] = err.Error()
+		}
+		logs = append(logs, log)
+		ev["logs"] = logs
+	}
 	return ev
+}
+
+// scripts draws k call sequences for a reader: Next and Seek interleaved, seek targets taken
+// from the sample timestamps (exactly, one before, one after: so seeks backwards, to the
+// current timestamp and in between occur), before the first and past the last sample.
+func scripts(rnd *rand.Rand, reps [][]smp, k int) []any {
+	var pool []int64
+	for _, r := range reps {
+		for _, s := range r {
+			pool = append(pool, s.t, s.t, s.t+1, s.t-1)
+		}
+	}
+	total := totalSamples(reps)
+	if len(pool) == 0 {
+		pool = []int64{0}
+	}
+	lo, hi := pool[0], pool[0]
+	for _, t := range pool {
+		if t < lo {
+			lo = t
+		}
+		if t > hi {
+			hi = t
+		}
+	}
+	pool = append(pool, lo-5001, hi+1, hi+100000)
+	out := []any{}
+	for i := 0; i < k; i++ {
+		ops := []any{}
+		nseek := 1 + rnd.Intn(3)
+		for j := 0; j < nseek; j++ {
+			for n := rnd.Intn(2 + total/2); n > 0 && len(ops) < 24; n-- {
+				ops = append(ops, map[string]any{"op": "next", "x": 0})
+			}
+			ops = append(ops, map[string]any{"op": "seek", "x": pool[rnd.Intn(len(pool))]})
+			if rnd.Intn(3) == 0 { // seek again at once (how an outer iterator drives an inner one)
+				ops = append(ops, map[string]any{"op": "seek", "x": pool[rnd.Intn(len(pool))]})
+			}
+		}
+		out = append(out, map[string]any{"ops": ops, "drain": total <= 40})
+	}
+	return out
 }
 
 // fromTLC concretises a layout enumerated by DedupMC: model time unit -> scale ms.
@@ -237,7 +371,8 @@ func fromTLC(c vt.Case, f, src string) vt.Case {
 	for _, x := range vt.List(c["targets"]) {
 		tg = append(tg, vt.Int64(x)*scale)
 	}
-	return vt.Case{"reps": repsJSON(reps), "ctr": vt.Bool(c["ctr"]), "f": f, "src": src, "targets": tg, "drift": true, "gen": "tlc"}
+	return vt.Case{"reps": repsJSON(reps), "ctr": vt.Bool(c["ctr"]), "f": f, "src": src, "algo": "penalty",
+		"targets": tg, "drift": true, "gen": "tlc"}
 }
 
 // randomLayout draws replicas that look like scrapes of one target by 1..4 Prometheus replicas:
